@@ -23,8 +23,6 @@ def drive (body impl : String) : Verdict :=
   let broken := abn || get "lost" > 0 || get "wrong" > 0 || get "ok" != total - nbad || get "errs" != nbad
   let fails : List String :=
     if !broken then []
-    else if loops ≥ 2 then [s!"[uring-multi-loop] {loops} event loops: {impl}"]
-    else if threads ≥ 2 ∨ (threads ≥ 1 ∧ cos > 0) then [s!"[uring-concurrent-submitters] more than one thread submits to one ring ({cos} coroutine callers on the loop thread, {threads} plain threads): {impl}"]
     else if abn then [s!"[crash-or-hang] {body}: {impl}"]
     else [s!"[lost-or-foreign-result] {body}: expected {mo}, got {impl}"]
   { modelOut := mo, spec := [("C27", fails.isEmpty, joinWith " ; " fails)],
